@@ -368,7 +368,10 @@ def evaluate(chk, v, suffixes):
             cp = byname.get("torusPolynomialCopy", [])
             BARB = sym.sym(gbarb)
             if len(mx) != 1 or len(cp) != 1:
-                problems.append("expected one monomial multiplication and one copy, found %d/%d" % (len(mx), len(cp)))
+                # the rotated test vector is built some other way (coefficients moved directly, ...): by interpretation
+                wit = rotated_testvector_by_interpretation(chk, v, g, suffix)
+                if wit:
+                    problems.append(wit)
             else:
                 want_exp = sym.sub(sym.mul(I(2), gN), BARB)
                 if mx[0]["args"][1] != want_exp or mx[0]["args"][2] != sym.sym(gv):
@@ -425,6 +428,74 @@ def evaluate(chk, v, suffixes):
                         where=b.where, ok="u = new_LweSample(&accum_params->extracted_lweparams); woKS(u, bk, mu, x); lweKeySwitch(result, bk->ks, u)",
                         bad="; ".join(problems), variant=vn)
             chk.vcount(vn, "R7.bootstrap_variants")
+
+
+def rotated_testvector_by_interpretation(chk, v, g, suffix):
+    """tfhe_blindRotateAndExtract*: the polynomial handed to tLweNoiselessTrivial must be X^(-barb)*v mod X^N+1.  The function is
+    interpreted for N in 1..4 and every barb in [0, 2N) with v's coefficients as indeterminates (sa/concrete.PolyState); the library's
+    own monomial multiplication and copy act by their specification (C11.R1).  -> None or a witness"""
+    from sa import concrete, symexec
+    gres, gv, gbk, gbarb, gbara, gn, gpar = [p["n"] for p in g.params]
+    gN = sym.arrow(P(gpar, "tlwe_params"), "N")
+    BARB = sym.sym(gbarb)
+    effs = symexec.run_function(v, g, hooks=NOINLINE)[0]
+    coef = lambda poly, i_: concrete.lvalue_location(sym.idx(sym.arrow(poly, "coefsT"), I(i_)), {})
+    for nv in (1, 2, 3, 4):
+        for b in range(2 * nv):
+            st = concrete.PolyState()
+            seen = []
+
+            def h(kind, x, env):
+                if kind in ("local", "store"):
+                    st.assign(x, env)
+                    return None
+                if kind in ("alloc", "delete"):
+                    return None
+                if kind != "call":
+                    raise concrete.NotEvaluable("%s at line %s" % (kind, x.get("l")))
+                nm, a = x["name"], x.get("args", [])
+                if nm == "torusPolynomialMulByXai":
+                    e_ = concrete.eval_term(a[1], env)
+                    if e_ is None:
+                        raise concrete.NotEvaluable("exponent %s" % sym.show(a[1])[:60])
+                    if not 0 <= e_ < 2 * nv:
+                        seen.append(("domain", e_))
+                        return None
+                    vals = [st.read(coef(a[2], i_)) for i_ in range(nv)]
+                    for i_ in range(nv):
+                        src = (i_ - e_) % (2 * nv)
+                        val = vals[src % nv]
+                        st.write(coef(a[0], i_), None if val is None else concrete.lin_add({}, val, -1 if src >= nv else 1))
+                elif nm == "torusPolynomialCopy":
+                    vals = [st.read(coef(a[1], i_)) for i_ in range(nv)]
+                    for i_ in range(nv):
+                        st.write(coef(a[0], i_), vals[i_])
+                elif nm == "tLweNoiselessTrivial":
+                    seen.append(("acc", [st.read(coef(a[1], i_)) for i_ in range(nv)]))
+                elif nm.startswith(("new_", "delete_", "tfhe_blindRotate", "tLweExtractLweSample")) or x.get("noreturn"):
+                    pass
+                else:
+                    raise concrete.NotEvaluable("call of %s at line %s" % (nm, x.get("l")))
+                return None
+            try:
+                concrete.interpret(effs, {gN: nv, BARB: b}, h, on_segment=st.segment)
+            except concrete.NotEvaluable as e:
+                chk.broken("%s: test-vector rotation not recognised; by interpretation: %s" % (g.name, e))
+            dom = [x_ for x_ in seen if x_[0] == "domain"]
+            if dom:
+                return "with N = %d, barb = %d the monomial multiplication is called with exponent %d, outside [0, 2N)" % (nv, b, dom[0][1])
+            accs = [x_ for x_ in seen if x_[0] == "acc"]
+            if len(accs) != 1:
+                chk.broken("%s: %d trivial accumulators with N = %d, barb = %d" % (g.name, len(accs), nv, b))
+            for i_ in range(nv):
+                src = (i_ + b) % (2 * nv)
+                atom = ("init", coef(sym.sym(gv), src % nv))
+                want = {(atom,): -1 if src >= nv else 1}
+                got = accs[0][1][i_]
+                if got is None or {m: c for m, c in got.items() if c} != want:
+                    return "with N = %d, barb = %d: coefficient %d of the accumulator's test vector is %s, X^(-barb)*v has %s%s there" % (
+                        nv, b, i_, "not a number" if got is None else concrete.show_poly(got, 3), "-" if src >= nv else "+", concrete.show_atom(atom))
+    return None
 
 
 class _Sub:
